@@ -31,11 +31,12 @@ Verdicts(r) ==
      \cup (IF ~IsMerge(r.gets) THEN {"XX:not-a-merge"} ELSE {})
      \cup (IF r.raised = "" /\ (Len(r.gets) # total \/ st.nb # 0) THEN {"C11:returns-before-all-finished"} ELSE {})
      \cup (IF r.raised = "" /\ r.mode = "solve" /\ r.yields # expY THEN {"C11:yields-differ-from-arrivals"} ELSE {})
-     \cup (IF r.raised = "" /\ r.mode = "solve" /\ BagOf(r.yields) # BagOf(r.seq) THEN {"C11:bag-differs-from-sequential"} ELSE {})
-     \cup (IF r.raised = "" /\ r.mode # "solve" /\ (r.none # r.seqnone) THEN {"C11:none-iff-infeasible"} ELSE {})
-     \cup (IF r.raised = "" /\ r.mode # "solve" /\ ~r.none /\ ~r.seqnone /\ r.ret[r.var + 1] # r.seqopt
+     \cup (IF r.hasseq /\ r.raised = "" /\ r.mode = "solve" /\ BagOf(r.yields) # BagOf(r.seq) THEN {"C11:bag-differs-from-sequential"} ELSE {})
+     \cup (IF r.hasseq /\ r.raised = "" /\ r.mode # "solve" /\ (r.none # r.seqnone) THEN {"C11:none-iff-infeasible"} ELSE {})
+     \cup (IF r.hasseq /\ r.raised = "" /\ r.mode # "solve" /\ ~r.none /\ ~r.seqnone /\ r.ret[r.var + 1] # r.seqopt
            THEN {"C11:optimum-differs-from-sequential"} ELSE {})
-     \cup (IF r.raised = "" /\ r.mode # "solve" /\ ~r.none /\ st.best # << >> /\ r.ret # r.sols[st.best[1]][st.best[2]]
+     \cup (IF r.raised = "" /\ r.mode # "solve" /\ ~r.none /\ st.best # << >>
+              /\ r.ret[r.var + 1] # r.sols[st.best[1]][st.best[2]][r.var + 1]
            THEN {"C11:not-the-best-incumbent"} ELSE {})
      \cup (IF r.raised = "" /\ r.mode # "solve" /\ (r.none # (st.best = << >>)) THEN {"C11:none-iff-no-incumbent"} ELSE {})
      \cup (IF r.raised = "" /\ ~statsOK THEN {"C11:stats-not-sums", "C17:mp-stats-not-sums"} ELSE {})
